@@ -776,3 +776,31 @@ func (v *FnView) unconditionalWithin(a ast.Node, s ast.Stmt) bool {
 	}
 	return true
 }
+
+// isExpandedAlias: the fact is about a boolean local with a single definition, which expandBoolAliases has
+// replaced (in addition) by the facts of its defining condition.
+func (v *FnView) isExpandedAlias(f Fact) bool {
+	id, ok := stripParens(f.Atom).(*ast.Ident)
+	if !ok {
+		return false
+	}
+	o := v.objOf(id)
+	if o == nil {
+		return false
+	}
+	if b, isB := o.Type().Underlying().(*types.Basic); !isB || b.Kind() != types.Bool {
+		return false
+	}
+	defs := v.defsOf(o)
+	if len(defs) != 1 {
+		return false
+	}
+	switch d := stripParens(defs[0]).(type) {
+	case *ast.BinaryExpr, *ast.UnaryExpr:
+		return true
+	case *ast.CallExpr:
+		bt, isB := v.Info.TypeOf(d).(*types.Basic)
+		return isB && bt.Kind() == types.Bool
+	}
+	return false
+}
